@@ -157,5 +157,219 @@ def inline_unknown_private(facts, body, depth=3):
         if t.get("t") == "call" and "callee" in t and not t["callee"].get("indirect"):
             cb = idx.lookup(body.pkg, Callee(t["callee"]))
             if cb is not None and cb.kind != "Closure" and cb.path != body.path and also(cb): any_c = True; break
-    if not any_c: return body
-    return inline(facts, body, keep=(), depth=depth, also=also)
+    import os
+    v = inline(facts, body, keep=(), depth=depth, also=also) if any_c else body
+    if os.environ.get("VERIF_NO_DESUGAR"): return v
+    v2 = desugar_closures(facts, v)
+    if v2 is not v:
+        # closures may call helper functions the rules do not know either
+        v3 = inline(facts, v2, keep=(), depth=depth, also=also)
+        v3.desugared = getattr(v2, "desugared", [])
+        v3.inlined = list(getattr(v2, "inlined", [])) + [x for x in v3.inlined if x not in getattr(v2, "inlined", [])]
+        v3.origin = getattr(v2, "origin", body)
+        return v3
+    return v
+
+
+# ------------------------------------------------------------------------------------------------
+# Closure-taking combinators and iterator adaptors of std, written out as the control flow they stand for.
+#
+# `opt.map_or(d, |x| f(x))` and `match opt { Some(x) => f(x), None => d }` are the same program, and so are
+# `it.for_each(|x| body)` and `for x in it { body }`. std's side of it is not part of the workspace, so the view spells the
+# documented behaviour of the adaptor out around the closure's own blocks (which are part of the workspace): a discriminant
+# switch on the receiver for the one-shot combinators, a loop around a (synthetic) `Iterator::next` for the adaptors.
+ONE_SHOT = ("map", "map_or", "is_some_and", "is_ok_and", "is_none_or", "and_then", "unwrap_or_else", "then", "filter", "inspect")
+LOOPING = ("for_each", "try_for_each", "any", "all")
+MAX_CLOSURE_BLOCKS = 80
+
+
+def _agg(adt, variant, vidx, ops, lhs, sp):
+    return {"s": "assign", "lhs": lhs, "rv": {"r": "agg", "kind": {"adt": adt, "variant": variant, "vidx": vidx, "fields": [str(i) for i in range(len(ops))]}, "ops": ops}, "sp": sp, "syn": True}
+
+
+def _use(lhs, op, sp):
+    return {"s": "assign", "lhs": lhs, "rv": {"r": "use", "ops": [op]}, "sp": sp, "syn": True}
+
+
+def _L(l, p=()): return {"l": l, "p": list(p)}
+
+
+def desugar_closures(facts, body, rounds=2):
+    """view of `body` (a Body, possibly already an inlined view) with closure-taking std combinators and iterator adaptors
+    replaced by explicit control flow around the closure's blocks. Returns the same object when nothing applies."""
+    from .cfg import DefUse, ref_chain
+    cur = body
+    for _ in range(rounds):
+        du = DefUse(cur)
+        unit = cur.unit
+        by_path = {b.path: b for b in unit.bodies if b.promoted is None}
+        jobs = []
+        for blk in cur.blocks:
+            t = blk.term
+            if blk.cleanup or t.kind != "call" or t.callee.indirect or t.target is None: continue
+            n = t.callee.name
+            if n not in ONE_SHOT and n not in LOOPING: continue
+            p = (t.callee.resolved or t.callee.path)
+            self_ty = t.callee.impl_self or ""
+            tr = t.callee.trait or ""
+            if n in LOOPING:
+                if "Iterator" not in (tr + p): continue
+                kind = "iter"
+            else:
+                if not p.startswith("std::") and not p.startswith("core::") and "std::" not in p: continue
+                if n == "then" and "bool" in p: kind = "bool"
+                elif "Option" in self_ty or "option::Option" in p: kind = "option"
+                elif "Result" in self_ty or "result::Result" in p: kind = "result"
+                else: continue
+                if n == "then" and kind != "bool": continue
+            # the closure / fn item handed in (last argument)
+            fa = t.args[-1] if t.args else None
+            if fa is None: continue
+            target = None; env_local = None
+            if fa.is_const and (fa.const or {}).get("fn"):
+                target = by_path.get(fa.const["fn"])
+            elif fa.place is not None and not fa.place.p:
+                for l in ref_chain(du, fa.place.l):
+                    for k, d in du.value_defs(l):
+                        if k == "stmt" and d.kind == "assign" and d.rv == "agg" and isinstance(d.agg, dict) and d.agg.get("closure"):
+                            target = by_path.get(d.agg["closure"]); env_local = l
+            if target is None or len(target.d["blocks"]) > MAX_CLOSURE_BLOCKS: continue
+            if getattr(cur, "origin", cur).path == target.path: continue
+            jobs.append((blk.idx, kind, n, target, env_local))
+        if not jobs: break
+        d = copy.deepcopy({k: v for k, v in cur.d.items()})
+        blocks = d["blocks"]; locs = d["locals"]
+        done = list(getattr(cur, "desugared", []))
+        for bi, kind, n, cb, env_local in jobs:
+            if len(blocks) + len(cb.d["blocks"]) + 8 > MAX_BLOCKS: continue
+            t = blocks[bi]["term"]
+            sp = t.get("sp", "")
+            args = t.get("args", []); dest = t.get("dest"); cont = t.get("target"); unw = t.get("unwind")
+            off = len(locs); locs.extend(copy.deepcopy(cb.d["locals"]))
+            def fresh(ty):
+                locs.append(ty); return len(locs) - 1
+            is_closure = cb.kind == "Closure"
+            nparams = cb.argc - (1 if is_closure else 0)
+            first_param = off + (2 if is_closure else 1)
+            # closure blocks
+            boff = len(blocks)
+            ret_blocks = []
+            for j, blk in enumerate(cb.d["blocks"]):
+                nb = {"cleanup": blk["cleanup"], "stmts": [_ren_stmt(s, off) for s in blk["stmts"]], "term": _ren_term(blk["term"], off, boff)}
+                k = nb["term"].get("t")
+                if k == "return": ret_blocks.append(boff + j)
+                elif k == "resume" and isinstance(unw, int): nb["term"] = {"t": "goto", "target": unw, "sp": sp}
+                blocks.append(nb)
+            def new_block(stmts, term):
+                blocks.append({"cleanup": False, "stmts": stmts, "term": term}); return len(blocks) - 1
+            def enter(stmts, item_op):
+                """statements binding env and (single) parameter, then jump into the closure"""
+                st = list(stmts)
+                if is_closure:
+                    ety = cb.d["locals"][1] if len(cb.d["locals"]) > 1 else ""
+                    ety = ety if isinstance(ety, str) else ety.get("ty", "")
+                    src = env_local if env_local is not None else (args[-1]["m"]["l"] if "m" in args[-1] else args[-1]["c"]["l"])
+                    if ety.startswith("&"): st.append({"s": "assign", "lhs": _L(off + 1), "rv": {"r": "ref", "bk": "mut" if ety.startswith("&mut") else "shared", "place": _L(src)}, "sp": sp, "syn": True})
+                    else: st.append(_use(_L(off + 1), {"c": _L(src)}, sp))
+                if nparams >= 1 and item_op is not None: st.append(_use(_L(first_param), item_op, sp))
+                return st
+            rty = cb.d["locals"][0]; rty = rty if isinstance(rty, str) else rty.get("ty", "")
+            res = fresh(rty)
+            if kind in ("option", "result"):
+                good = 1 if kind == "option" else 0
+                gname, bname = ("Some", "None") if kind == "option" else ("Ok", "Err")
+                adt = "std::option::Option" if kind == "option" else "std::result::Result"
+                recv = fresh("?recv"); dl = fresh("isize")
+                # S: take the receiver, switch on its variant
+                y_stmts = enter([], {"m": _L(recv, ["as %s#%d" % (gname, good), ".0#0"])})
+                Y = new_block(y_stmts, {"t": "goto", "target": boff, "sp": sp})
+                # what happens without / after the closure
+                if n == "map":
+                    J = new_block([_agg(adt, gname, good, [{"m": _L(res)}], dest, sp)], {"t": "goto", "target": cont, "sp": sp})
+                    nst = [_agg(adt, bname, 1 - good, [] if kind == "option" else [{"m": _L(recv, ["as Err#1", ".0#0"])}], dest, sp)]
+                elif n in ("map_or",):
+                    J = new_block([_use(dest, {"m": _L(res)}, sp)], {"t": "goto", "target": cont, "sp": sp})
+                    nst = [_use(dest, args[1], sp)]
+                elif n in ("is_some_and", "is_ok_and"):
+                    J = new_block([_use(dest, {"m": _L(res)}, sp)], {"t": "goto", "target": cont, "sp": sp})
+                    nst = [_use(dest, {"k": {"ty": "bool", "int": 0}}, sp)]
+                elif n == "is_none_or":
+                    J = new_block([_use(dest, {"m": _L(res)}, sp)], {"t": "goto", "target": cont, "sp": sp})
+                    nst = [_use(dest, {"k": {"ty": "bool", "int": 1}}, sp)]
+                elif n == "and_then":
+                    J = new_block([_use(dest, {"m": _L(res)}, sp)], {"t": "goto", "target": cont, "sp": sp})
+                    nst = [_agg(adt, bname, 1 - good, [] if kind == "option" else [{"m": _L(recv, ["as Err#1", ".0#0"])}], dest, sp)]
+                elif n == "inspect":
+                    J = new_block([_use(dest, {"m": _L(recv)}, sp)], {"t": "goto", "target": cont, "sp": sp})
+                    nst = [_use(dest, {"m": _L(recv)}, sp)]
+                elif n == "filter" and kind == "option":
+                    keep = new_block([_use(dest, {"m": _L(recv)}, sp)], {"t": "goto", "target": cont, "sp": sp})
+                    drop = new_block([_agg(adt, "None", 0, [], dest, sp)], {"t": "goto", "target": cont, "sp": sp})
+                    J = new_block([], {"t": "switch", "discr": {"m": _L(res)}, "targets": [[0, drop]], "otherwise": keep, "sp": sp})
+                    nst = [_agg(adt, "None", 0, [], dest, sp)]
+                    # filter hands the closure a reference to the payload
+                    blocks[Y]["stmts"] = enter([{"s": "assign", "lhs": _L(first_param), "rv": {"r": "ref", "bk": "shared", "place": _L(recv, ["as Some#1", ".0#0"])}, "sp": sp, "syn": True}], None)
+                elif n == "unwrap_or_else":
+                    # the closure runs on the *bad* variant
+                    J = new_block([_use(dest, {"m": _L(res)}, sp)], {"t": "goto", "target": cont, "sp": sp})
+                    blocks[Y]["stmts"] = [_use(dest, {"m": _L(recv, ["as %s#%d" % (gname, good), ".0#0"])}, sp)]
+                    blocks[Y]["term"] = {"t": "goto", "target": cont, "sp": sp}
+                    nst = None
+                    Nb = new_block(enter([], {"m": _L(recv, ["as Err#1", ".0#0"])} if kind == "result" else None), {"t": "goto", "target": boff, "sp": sp})
+                else:
+                    continue
+                if nst is not None: Nb = new_block(nst, {"t": "goto", "target": cont, "sp": sp})
+                for rb in ret_blocks:
+                    blocks[rb]["stmts"].append(_use(_L(res), {"m": _L(off)}, sp))
+                    blocks[rb]["term"] = {"t": "goto", "target": J, "sp": sp}
+                S_stmts = [_use(_L(recv), args[0], sp), {"s": "assign", "lhs": _L(dl), "rv": {"r": "discr", "place": _L(recv)}, "sp": sp, "syn": True}]
+                S = new_block(S_stmts, {"t": "switch", "discr": {"m": _L(dl)}, "targets": [[good, Y], [1 - good, Nb]], "otherwise": Nb, "sp": sp, "syn": True})
+                blocks[bi]["term"] = {"t": "goto", "target": S, "sp": sp, "syn_call": t.get("callee", {}).get("path")}
+            elif kind == "bool":
+                J = new_block([_agg("std::option::Option", "Some", 1, [{"m": _L(res)}], dest, sp)], {"t": "goto", "target": cont, "sp": sp})
+                for rb in ret_blocks:
+                    blocks[rb]["stmts"].append(_use(_L(res), {"m": _L(off)}, sp))
+                    blocks[rb]["term"] = {"t": "goto", "target": J, "sp": sp}
+                Y = new_block(enter([], None), {"t": "goto", "target": boff, "sp": sp})
+                Nb = new_block([_agg("std::option::Option", "None", 0, [], dest, sp)], {"t": "goto", "target": cont, "sp": sp})
+                c = fresh("bool")
+                S = new_block([_use(_L(c), args[0], sp)], {"t": "switch", "discr": {"m": _L(c)}, "targets": [[0, Nb]], "otherwise": Y, "sp": sp, "syn": True})
+                blocks[bi]["term"] = {"t": "goto", "target": S, "sp": sp, "syn_call": t.get("callee", {}).get("path")}
+            else:   # iterator adaptors
+                item = fresh("?item"); dl = fresh("isize")
+                H = new_block([], None)          # filled below
+                Y = new_block(enter([], {"m": _L(item, ["as Some#1", ".0#0"])}), {"t": "goto", "target": boff, "sp": sp})
+                if n == "for_each":
+                    X = new_block([], {"t": "goto", "target": cont, "sp": sp})
+                    for rb in ret_blocks: blocks[rb]["term"] = {"t": "goto", "target": H, "sp": sp}
+                elif n == "try_for_each":
+                    unit_ok = _agg("std::result::Result" if "Result" in rty else "std::option::Option" if "Option" in rty else "?", "Ok" if "Result" in rty else "Some", 0 if "Result" in rty else 1, [{"k": {"ty": "()", "zst": True}}], dest, sp)
+                    X = new_block([unit_ok], {"t": "goto", "target": cont, "sp": sp})
+                    stop = new_block([_use(dest, {"m": _L(res)}, sp)], {"t": "goto", "target": cont, "sp": sp})
+                    rd = fresh("isize")
+                    goodv = 0 if "Result" in rty else 1
+                    J = new_block([{"s": "assign", "lhs": _L(rd), "rv": {"r": "discr", "place": _L(res)}, "sp": sp, "syn": True}],
+                                  {"t": "switch", "discr": {"m": _L(rd)}, "targets": [[goodv, H]], "otherwise": stop, "sp": sp, "syn": True})
+                    for rb in ret_blocks:
+                        blocks[rb]["stmts"].append(_use(_L(res), {"m": _L(off)}, sp))
+                        blocks[rb]["term"] = {"t": "goto", "target": J, "sp": sp}
+                else:   # any / all
+                    hit = 1 if n == "any" else 0
+                    X = new_block([_use(dest, {"k": {"ty": "bool", "int": 1 - hit}}, sp)], {"t": "goto", "target": cont, "sp": sp})
+                    stop = new_block([_use(dest, {"k": {"ty": "bool", "int": hit}}, sp)], {"t": "goto", "target": cont, "sp": sp})
+                    J = new_block([], {"t": "switch", "discr": {"m": _L(res)}, "targets": [[0, H if hit == 1 else stop]], "otherwise": stop if hit == 1 else H, "sp": sp, "syn": True})
+                    for rb in ret_blocks:
+                        blocks[rb]["stmts"].append(_use(_L(res), {"m": _L(off)}, sp))
+                        blocks[rb]["term"] = {"t": "goto", "target": J, "sp": sp}
+                S = new_block([{"s": "assign", "lhs": _L(dl), "rv": {"r": "discr", "place": _L(item)}, "sp": sp, "syn": True}],
+                              {"t": "switch", "discr": {"m": _L(dl)}, "targets": [[0, X], [1, Y]], "otherwise": X, "sp": sp, "syn": True})
+                blocks[H] = {"cleanup": False, "stmts": [], "term": {"t": "call", "callee": {"path": "std::iter::Iterator::next", "name": "next", "trait": "std::iter::Iterator", "impl_self": "?", "synthetic": True},
+                             "args": [args[0]], "dest": _L(item), "target": S, "unwind": unw, "sp": sp}}
+                blocks[bi]["term"] = {"t": "goto", "target": H, "sp": sp, "syn_call": t.get("callee", {}).get("path")}
+            done.append((cb.path, n, sp))
+        nb = Body(d, cur.unit)
+        nb.inlined = list(getattr(cur, "inlined", []))
+        nb.desugared = done
+        nb.origin = getattr(cur, "origin", cur)
+        cur = nb
+    return cur
